@@ -669,7 +669,7 @@ class ExprRewriter(ast.NodeTransformer, EmitterMixin):
                 traced_elts.append(self.visit(elt))
                 continue
             elif not is_load or not self.handler_predicate_by_event[elt_trace_evt](
-                node
+                elt
             ):
                 traced_elts.append(self.visit(elt))
                 continue
